@@ -347,3 +347,9 @@ pub fn g005(xs: &[f64], ns: &[i64], a: f64, b: f64, i: i64, j: i64, u: usize) ->
 pub fn g006(xs: &[f64], ns: &[i64], a: f64, b: f64, i: i64, j: i64, u: usize) -> Vec<i64> { ns.iter().copied().map(i64::abs).map(|x| x.pow(2)).collect() }
 pub fn g007(xs: &[f64], ns: &[i64], a: f64, b: f64, i: i64, j: i64, u: usize) -> (i64, i64) { let (mut lo, mut hi) = (i64::MAX, i64::MIN); ns.iter().for_each(|&x| { lo = lo.min(x); hi = hi.max(x); }); (lo, hi) }
 pub fn g008(xs: &[f64], ns: &[i64], a: f64, b: f64, i: i64, j: i64, u: usize) -> usize { ns.iter().filter(|&&x| x > 0).map(|_| 1usize).sum::<usize>() + xs.iter().rev().position(|&x| x > 1.0).unwrap_or(0) }
+pub fn g009(xs: &[f64], ns: &[i64], a: f64, b: f64, i: i64, j: i64, u: usize) -> i64 { match a.partial_cmp(&b) { Some(std::cmp::Ordering::Greater) => 1, Some(std::cmp::Ordering::Less | std::cmp::Ordering::Equal) | None => -1 } }
+pub fn g010(xs: &[f64], ns: &[i64], a: f64, b: f64, i: i64, j: i64, u: usize) -> i64 { match i.cmp(&j) { std::cmp::Ordering::Less => -7, std::cmp::Ordering::Equal => 0, std::cmp::Ordering::Greater => 7 } }
+pub fn g011(xs: &[f64], ns: &[i64], a: f64, b: f64, i: i64, j: i64, u: usize) -> i64 { match i - j { -1 => 10, -2 => 20, 0 => 30, _ => 40 } }
+pub fn g012(xs: &[f64], ns: &[i64], a: f64, b: f64, i: i64, j: i64, u: usize) -> i64 { let d: VecDeque<Vec<i64>> = ns.iter().map(|&x| vec![x, x + 1]).collect(); if d.is_empty() { 0 } else { d[u % d.len()][1] + d[0][..][0] } }
+pub fn g013(xs: &[f64], ns: &[i64], a: f64, b: f64, i: i64, j: i64, u: usize) -> (Vec<f64>, Option<f64>) { let mut buf = vec![0f64; xs.len()].into_boxed_slice(); buf.copy_from_slice(xs); let mut o: Option<f64> = None; o.replace(a); (buf.into_vec(), o) }
+pub fn g014(xs: &[f64], ns: &[i64], a: f64, b: f64, i: i64, j: i64, u: usize) -> (Option<Vec<f64>>, Option<Vec<i64>>, Option<i64>) { let bx: Option<Box<[f64]>> = if u % 2 == 0 { Some(xs.to_vec().into_boxed_slice()) } else { None }; let c = bx.clone(); let v: Option<Vec<i64>> = Some(ns.to_vec()); let w = v.clone(); let k = Some(i).clone(); (c.map(|b| b.into_vec()), w, k) }
